@@ -12,12 +12,18 @@ apply='--apply' in sys.argv
 total=0
 if '--cone' in sys.argv:
     # tags follow static calls: what a function tagged P calls (directly, through closures, or through functions without a
-    # contract) is part of P's cone.  Edges come from "gocv calls"; interface dispatch is not followed.
+    # contract) is part of P's cone.  Edges come from "gocv calls"; interface dispatch is followed too (see below).
     import subprocess,collections
-    edges=collections.defaultdict(set)
+    edges=collections.defaultdict(set); dyn=collections.defaultdict(set)
+    # interface dispatch (third column "dyn" of gocv calls: every library implementation of the invoked method): tags follow it
+    # too; from the request pipeline, which carries every property, only the properties about the response as a whole do
+    PIPELINE={'model.(*DecisionMaker).MakeDecision','model.(*DecisionMaker).prepareParams','model.(*DecisionMaker).processBiases'}
+    WHOLE={'C01','C20'}
     for l in subprocess.run(['/verif/gocv/gocv','calls'],capture_output=True,text=True).stdout.split('\n'):
         if '\t' in l:
-            a,b=l.split('\t'); edges[a].add(b)
+            parts=l.split('\t'); a,b=parts[0],parts[1]
+            if len(parts)>2 and parts[2]=='dyn': dyn[a].add(b)
+            else: edges[a].add(b)
     def key(cf,name):
         d=os.path.dirname(cf)[len('/repo/lib/'):]
         return d+'.'+name
@@ -39,6 +45,10 @@ if '--cone' in sys.argv:
         f=work.pop()
         for g in edges.get(f,()):
             add=(tags[f]&claimed)-tags[g]
+            if add:
+                tags[g]|=add; work.append(g)
+        for g in dyn.get(f,()):
+            add=((tags[f]&claimed)&(WHOLE if f in PIPELINE else claimed))-tags[g]
             if add:
                 tags[g]|=add; work.append(g)
     for k,(cf,i) in sorted(where.items()):
